@@ -186,6 +186,8 @@ def net_case(draw):
         b = draw(st.sampled_from([x for x in nodes if x != a]))
         if draw(st.booleans()):
             a, b = b, a
+        if i > 0 and draw(st.integers(0, 9)) == 0:
+            b = a                       # an element written with both terminals on one node is still that element
         desc.append(draw(net_entry(k, eid, a, b)))
     return {'desc': desc, 'reload': draw(st.booleans()), 'file': draw(st.integers(0, 7)) == 0}
 
